@@ -303,7 +303,7 @@ pub fn run(ctx: &Ctx, rep: &mut Report) {
     rep.assume("accept-side cases under an honest public key come only from honest signing; accept-side boundary cases come from the t1 = 0 construction (every pk-length string is a valid public key)");
     rep.assume("the aligned-residue construction reaches the 2^31 region for ML-DSA-65 and ML-DSA-87 only (for ML-DSA-44 no small-preimage combination exists at K = 16)");
     let max_msg = if ctx.quick() { 2048 } else { 65_536 };
-    run_generated(ctx, rep, "generated", ctx.n(2400, 60_000), || strategy(max_msg), check);
+    run_generated(ctx, rep, "generated", ctx.n(10_000, 150_000), || strategy(max_msg), check);
     let ac = aligned_cases(ctx);
     if ac.is_empty() {
         rep.note("aligned corpus empty");
